@@ -19,6 +19,21 @@ import (
 	"pgregory.net/rapid"
 )
 
+// vfC27Logger turns the mux's own Warnf calls (made while a datagram without endpoint is being
+// queued) into a schedule point: whatever the code does around that log line - with or without
+// the mux lock held - another goroutine can be scheduled there by the controller.
+type vfC27Logger struct {
+	logging.LeveledLogger
+	gates *vfGates
+	mux   *Mux
+}
+
+func (l *vfC27Logger) Warnf(format string, args ...any) {
+	if l.gates != nil {
+		l.gates.hook("mux.log.warn", l.mux, 0)
+	}
+}
+
 func vfC27NewMux() *Mux {
 	return &Mux{
 		endpoints: make(map[*Endpoint]MatchFunc),
@@ -180,8 +195,9 @@ func vfC27Packet(class, seq int) []byte {
 
 func vfC27OrderRun(v *vfT, c vfC27OrderCase) {
 	m := vfC27NewMux()
-	gates := vfGatesInstall([]string{"mux.pending.entry"}, m)
+	gates := vfGatesInstall([]string{"mux.pending.entry", "mux.log.warn"}, m)
 	defer gates.Uninstall()
+	m.log = &vfC27Logger{LeveledLogger: m.log, gates: gates, mux: m}
 	actors := vfNewActors()
 	eps := map[int]*Endpoint{}
 	var epsMu = make(chan struct{}, 1)
@@ -190,46 +206,60 @@ func vfC27OrderRun(v *vfT, c vfC27OrderCase) {
 	seq := 0
 	pendingAtNew := false
 	lateWhileParked := false
+	newDuringQueueing := false
 	newStarted := map[int]bool{}
+	dispatching := "" // name of the dispatch actor in flight (the read loop is ONE goroutine)
+	finishDispatch := func() {
+		if dispatching == "" {
+			return
+		}
+		deadline := time.Now().Add(20 * time.Second)
+		for !actors.Done(dispatching) {
+			if !gates.ReleasePoint("mux.log.warn") {
+				// blocked on the mux lock held by a parked NewEndpoint? release that one too
+				gates.ReleasePoint("mux.pending.entry")
+			}
+			vfSettle(gates, actors)
+			if time.Now().After(deadline) {
+				v.Violation("C27/order/dispatch-blocked", "dispatch did not return within 20s\n%s", vfPionStacks())
+			}
+		}
+		dispatching = ""
+	}
 	for _, op := range c.Ops {
 		switch op.Kind {
 		case "pkt":
+			finishDispatch() // one datagram at a time, as in the read loop
 			seq++
 			b := vfC27Packet(op.Class, seq)
-			pend := 0
 			m.lock.Lock()
-			pend = len(m.pendingPackets)
+			pend := len(m.pendingPackets)
 			m.lock.Unlock()
 			if pend >= maxPendingPackets {
 				continue // the queue cap is outside the statement; never generate an overflow
 			}
-			if len(gates.Parked()) > 0 && newStarted[op.Class] {
-				lateWhileParked = true
-			}
-			// dispatch on an actor: if NewEndpoint holds the lock while parked this must not wedge the harness
-			done := make(chan error, 1)
-			actors.Go(fmt.Sprintf("pkt#%d", seq), func() { done <- m.dispatch(b) })
-			select {
-			case err := <-done:
-				if err != nil {
-					v.Violation("C27/dispatch/error", "dispatch: %v", err)
+			for _, p := range gates.Parked() {
+				if p == "mux.pending.entry" && newStarted[op.Class] {
+					lateWhileParked = true
 				}
-			case <-time.After(2 * time.Second):
-				v.Violation("C27/order/dispatch-blocked", "dispatch blocked for 2s while the pending flush was parked (a yield point holds the mux lock?)\n%s", vfPionStacks())
 			}
+			name := fmt.Sprintf("pkt#%d", seq)
+			dispatching = name
+			actors.Go(name, func() {
+				if err := m.dispatch(b); err != nil {
+					panic(fmt.Sprintf("dispatch: %v", err))
+				}
+			})
+			vfSettle(gates, actors)
 			sent[op.Class] = append(sent[op.Class], b)
 		case "new":
 			if newStarted[op.Class] {
 				continue
 			}
 			newStarted[op.Class] = true
-			m.lock.Lock()
-			for _, p := range m.pendingPackets {
-				if vfC27Class(p) == op.Class {
-					pendingAtNew = true
-				}
+			if dispatching != "" && !actors.Done(dispatching) {
+				newDuringQueueing = true
 			}
-			m.lock.Unlock()
 			cl := op.Class
 			actors.Go(fmt.Sprintf("new#%d", cl), func() {
 				e := m.NewEndpoint(vfC27Matchers[cl])
@@ -245,23 +275,29 @@ func vfC27OrderRun(v *vfT, c vfC27OrderCase) {
 			}
 		}
 	}
+	finishDispatch()
 	gates.OpenAll()
 	if ok, dump := vfWaitActors(actors, 20*time.Second); !ok {
 		v.Violation("C27/order/stuck", "NewEndpoint / dispatch did not return: %s", dump)
 	}
 	vfSettle(gates, actors)
 	time.Sleep(300 * time.Microsecond)
-	if pendingAtNew {
-		v.Label("pending-at-new")
-	}
+	_ = pendingAtNew
 	if lateWhileParked {
 		v.Label("arrival-while-flush-parked")
 	}
-	if pendingAtNew && lateWhileParked {
+	if newDuringQueueing {
+		v.Label("NewEndpoint-while-a-datagram-is-being-queued")
+	}
+	if lateWhileParked || newDuringQueueing {
 		v.NonTrivial()
 	}
-	if gates.Reached()["mux.pending.entry"] == 0 {
-		v.Label("gate-not-reached")
+	r := gates.Reached()
+	if r["mux.pending.entry"] == 0 {
+		v.Label("gate-not-reached:mux.pending.entry")
+	}
+	if r["mux.log.warn"] > 0 {
+		v.Label("reached:mux.log.warn")
 	}
 	rd := make([]byte, 64)
 	for cl, e := range eps {
@@ -297,7 +333,7 @@ func vfC27Seqs(ps [][]byte) string {
 }
 
 var vfC27OrderOpts = vfOpts{
-	Rule: "op sequences over {datagram of class DTLS/SRTP/SRTCP arrives, NewEndpoint(class), release the parked pending-queue flush}; dispatch runs on one goroutine as in the read loop; non-trivial = a datagram of a class was pending when its endpoint was created AND another datagram of that class arrived while the flush was still parked",
+	Rule: "op sequences over {datagram of class DTLS/SRTP/SRTCP arrives, NewEndpoint(class), release the parked pending-queue flush}; dispatch runs on one goroutine as in the read loop; the mux's own log call inside the no-endpoint branch of dispatch is a second schedule point (mux.log.warn); non-trivial = a datagram arrived while NewEndpoint was parked before registering, or NewEndpoint was started while a datagram was in the middle of being queued",
 	Assumptions: []string{"at most maxPendingPackets (15) datagrams are pending at any time (the queue cap is outside the statement)",
 		"interleaving explored at the verif yield point mux.pending.entry; if the tree no longer reaches it the schedule degrades to the natural one (label gate-not-reached)"},
 }
